@@ -8,11 +8,12 @@ KD = 4096
 def plan_of_segment(seg):
     """Rebuild the operation list that produced a logged segment."""
     h = seg[0]
-    ops = [{"op": "new", "cs": h["cs"], "ac": h["ac"], "conc": h["conc"], "struct": h.get("struct", False)}]
+    ops = [{"op": "new", "cs": h["cs"], "ac": h["ac"], "conc": h["conc"], "struct": h.get("struct", False),
+            "acl": h.get("acl", False)}]
     for e in seg[1:]:
         if e["op"] == "push":
             ops.append({"op": "push", "v": e["v"]})
-        elif e["op"] in ("finalise", "clear", "pull"):
+        elif e["op"] in ("finalise", "clear", "pull", "cleanup"):
             ops.append({"op": e["op"]})
     return ops
 
